@@ -194,10 +194,14 @@ func runDCT(r *ev.Run, thorough bool) (total dctStats) {
 					}
 				}
 				for _, f := range fs {
-					r.Violation(f.clause+":"+job.family, "BlockU8 of family "+job.family+": "+f.detail, dctCase{"dct", job.family, b})
+					f, bb := f, b
+					cands.offer(f.clause+":"+job.family, []int64{2, int64(i)}, func() (string, any) {
+						return "BlockU8 of family " + job.family + ": " + f.detail, dctCase{"dct", job.family, bb}
+					})
 				}
 			}
 		})
+		cands.flush(r)
 		var fam dctStats
 		fam.minDC = 1 << 20
 		for _, s := range per {
